@@ -1734,9 +1734,20 @@ class DocutilsRenderer(RendererProtocol):
         if issubclass(directive_class, Include):
             # this is a Markdown only option,
             # to allow for altering relative image reference links
-            directive_class.option_spec["relative-images"] = directives.flag
-            directive_class.option_spec["relative-docs"] = directives.path
-            directive_class.option_spec["heading-offset"] = directives.nonnegative_int
+            # (set on a subclass: the class itself is shared with the rST parser,
+            # e.g. ``.. include::`` inside ``eval-rst``, in this and later parses)
+            directive_class = type(
+                directive_class.__name__,
+                (directive_class,),
+                {
+                    "option_spec": {
+                        **(directive_class.option_spec or {}),
+                        "relative-images": directives.flag,
+                        "relative-docs": directives.path,
+                        "heading-offset": directives.nonnegative_int,
+                    }
+                },
+            )
 
         try:
             parsed = parse_directive_text(
